@@ -38,32 +38,41 @@ def stream_specs(rng, quick, scale):
     LF, CDEF, LR, superres upscale.  tile_columns/tile_rows are log2 counts."""
     S = []
 
-    def add(name, w, h, frames, tc, tr, **kw):
+    def add(name, w, h, frames, tc, tr, lr=1, **kw):
         c = cfggen.tiny_case(rng, frames=frames, width=w, height=h, content=kw.pop("content", "mix"))
         c.update({"cfg.enc_mode": 8, "cfg.recon_enabled": 0, "cfg.logical_processors": 4, "cfg.tile_columns": tc,
-                  "cfg.tile_rows": tr, "cfg.enable_restoration_filtering": 1, "cfg.cdef_level": -1})
+                  "cfg.tile_rows": tr, "cfg.enable_restoration_filtering": lr, "cfg.cdef_level": -1})
         for k, v in kw.items():
             c[k if not k.startswith("cfg_") else "cfg." + k[4:]] = v
-        S.append({"name": name, "case": c, "tiles": (1 << tc) * (1 << tr), "layout": "%dx%d" % (1 << tc, 1 << tr)})
+        S.append({"name": name, "case": c, "tiles": (1 << tc) * (1 << tr), "layout": "%dx%d" % (1 << tc, 1 << tr),
+                  "lr": "on" if lr else "off"})
 
-    add("cif-1tile", 352, 288, 4, 0, 0)
-    add("cif-2x1", 352, 288, 5, 1, 0, content="pan")
+    # loop restoration on (LR job kind exercised) ...
+    add("tiny-1tile", 192, 128, 2, 0, 0, content="pan")
     add("cif-1x2", 352, 288, 4, 0, 1, content="rects")
     add("360p-4x4", 640, 360, 3, 2, 2)
-    add("360p-4x1-superres", 640, 360, 3, 2, 0, cfg_superres_mode=1, cfg_superres_denom=12, cfg_superres_kf_denom=11,
-        content="pan")
     add("cif-2x2-10bit", 352, 288, 4, 1, 1, bitdepth=10, content="zoom")
-    add("cif-intra-2x2", 352, 288, 3, 1, 1, cfg_intra_period_length=0, content="screen")
-    add("360p-2x4-mfmv", 640, 360, 6, 1, 2, cfg_enable_mfmv=1, cfg_hierarchical_levels=3, content="pan")
+    # ... and off (parse / recon wavefront / MV projection / LF / CDEF jobs only)
+    add("cif-1tile-nolr", 352, 288, 4, 0, 0, lr=0)
+    add("cif-2x1-nolr", 352, 288, 5, 1, 0, lr=0, content="pan")
+    add("cif-intra-2x2-nolr", 352, 288, 3, 1, 1, lr=0, cfg_intra_period_length=0, content="screen")
+    add("360p-2x4-mfmv-nolr", 640, 360, 6, 1, 2, lr=0, cfg_enable_mfmv=1, cfg_hierarchical_levels=3, content="pan")
+    add("360p-4x1-10bit-nolr", 640, 360, 3, 2, 0, lr=0, bitdepth=10, content="zoom")
+    # superres (hard sync after CDEF, upscale, per-frame width change => MT resources re-allocated); LR is off because
+    # the encoder crashes with superres + forced restoration (not this property's subject)
+    add("cif-2x1-superres-nolr", 352, 288, 5, 1, 0, lr=0, cfg_superres_mode=1, cfg_superres_denom=11,
+        cfg_superres_kf_denom=13, content="pan")
     if not quick:
-        n = int(72 * scale)
+        n = int(70 * scale)
         for i in range(n):
             w, h = rng.choice([(352, 288), (416, 240), (480, 270), (640, 360), (320, 180), (640, 480)])
             tc, tr = rng.choice([(0, 0), (1, 0), (0, 1), (1, 1), (2, 0), (0, 2), (2, 1), (1, 2), (2, 2)])
             kw = {"content": rng.choice(["mix", "pan", "rects", "zoom", "screen", "cuts", "noise"])}
             if rng.random() < 0.3:
                 kw["bitdepth"] = 10
+            lr = rng.choice([0, 1])
             if rng.random() < 0.25:
+                lr = 0  # superres + forced restoration crashes the encoder
                 kw.update(cfg_superres_mode=rng.choice([1, 2]), cfg_superres_denom=rng.choice([9, 11, 13, 16]),
                           cfg_superres_kf_denom=rng.choice([9, 12, 16]))
             if rng.random() < 0.2:
@@ -75,7 +84,7 @@ def stream_specs(rng, quick, scale):
             kw["cfg_enc_mode"] = rng.choice([8, 8, 7, 6])
             kw["cfg_qp"] = rng.choice([20, 35, 50, 60])
             kw["cfg_hierarchical_levels"] = rng.choice([0, 2, 3, 4])
-            add("rnd%03d" % i, w, h, rng.choice([2, 3, 5, 8]), tc, tr, **kw)
+            add("rnd%03d" % i, w, h, rng.choice([2, 3, 5, 8]), tc, tr, lr=lr, **kw)
     return S
 
 
@@ -158,7 +167,7 @@ class Ctx:
 
 
 def desc(sp, flavour, t, p16, sched, extra=""):
-    return "%s tiles=%s t=%d pipe16=%d %s sched=%s%s" % (sp["name"], sp["layout"], t, p16, flavour, sched or "-", extra)
+    return "%s tiles=%s lr=%s t=%d pipe16=%d %s sched=%s%s" % (sp["name"], sp["layout"], sp.get("lr"), t, p16, flavour, sched or "-", extra)
 
 
 def mt_case(sp, t, p16, exact):
@@ -237,8 +246,12 @@ def judge(ctx, sp, base_frames, d, flavour, t, p16, sched, want_san_clean=True):
         diff = dec.compare_frames(d.frames, base_frames)
         if diff is not None:
             ok = False
-            chk.violation("C09|mt-mismatch|tiles=%s|%s" % (sp["layout"], common.feature_sig(sp["case"])),
-                          "threads=%d output differs from threads=1: %s (%s)" % (t, diff, ident), case)
+            # with loop restoration on, the LR row jobs are the known source (one key); without it the key names
+            # the tile layout and features so that a recon/LF/CDEF ordering defect is a different violation
+            key = "C09|mt-mismatch|lr=on" if sp.get("lr") == "on" else \
+                "C09|mt-mismatch|lr=off|tiles=%s|%s" % (sp["layout"], common.feature_sig(sp["case"]))
+            chk.violation(key, "threads=%d output differs from threads=1: %s (%s)" % (t, diff, ident), case)
+            chk.bump("mt_decodes_with_wrong_pictures")
         else:
             chk.bump("pictures_equal_to_single_thread", len(base_frames))
             chk.nontrivial_case(core.sha(ident))
@@ -328,8 +341,8 @@ def run(chk, tier, replay=None):
         if sp not in picked:
             picked.append(sp)
     if quick:
-        # one single-tile, one multi-tile-row/column, one many-tile stream
-        want = [s for s in picked if s["tiles"] == 1][:1] + [s for s in picked if 1 < s["tiles"] <= 4][:1] + \
+        # the tiny single-tile stream, one two-tile stream with LR, one many-tile stream
+        want = [s for s in picked if s["tiles"] == 1][:1] + [s for s in picked if 1 < s["tiles"] <= 4 and s["lr"] == "on"][:1] + \
                [s for s in picked if s["tiles"] > 4][:1]
         picked = want or picked
     for si, sp in enumerate(picked[:ts_n]):
@@ -365,25 +378,41 @@ def run(chk, tier, replay=None):
         if ok:
             dec.cleanup(d.prefix)
 
-    # 3. watchdog hits: solitary re-run with a 4x watchdog; only a reproducible hang is a violation
+    # 3. watchdog hits: solitary re-runs; only a hang that reproduces is a violation.  An intermittent deadlock needs
+    #    several tries, so the case is repeated (alone, one process at a time) until it hangs again or the budget ends.
     for sp, fl, t, p16, sched, d0 in ctx.retry:
         p = d0.prefix + ".retry"
-        d = dec.run_dec_case(fl, mt_case(sp, t, p16, 1 if fl == "plain" else 0), p, sched=sched,
-                             timeout=4 * dec.case_timeout({"in": sp["ivf"]}, fl))
-        if d.timed_out:
-            pend = dec.pending_call(d)
-            chk.violation("C09|hang|%s|tiles=%s" % (pend or "?", sp["layout"]),
-                          "multi-threaded decode hung twice (second time alone, %.0fs): call that never returned: %s; %d "
-                          "pictures delivered; %s" % (d.wall, pend, len(d.frames), desc(sp, fl, t, p16, sched)),
+        tries = 1 if fl == "tsan" else (25 if fl == "plain" else 6)
+        again, completed = None, []
+        for k in range(tries):
+            d = dec.run_dec_case(fl, mt_case(sp, t, p16, 1 if fl == "plain" else 0), p, sched=sched,
+                                 timeout=(4 if k == 0 else 1) * dec.case_timeout({"in": sp["ivf"]}, fl))
+            if d.timed_out:
+                again = d
+                break
+            completed.append(d)
+        chk.bump("watchdog_hits")
+        snap = lambda d: "threads=%s cpu_ticks_delta=%s states=%s" % ((d.hang or {}).get("threads"),
+                                                                     (d.hang or {}).get("cpu_ticks_delta"),
+                                                                     ",".join((d.hang or {}).get("states", [])))
+        if again is not None:
+            pend = dec.pending_call(again) or dec.pending_call(d0)
+            stage = "teardown" if pend in ("dec_deinit", "dec_deinit_handle") else "decode"
+            chk.violation("C09|hang|%s" % (pend or "?"),
+                          "multi-threaded decode hung twice (first in the campaign, then after %d completed solitary re-runs), in "
+                          "%s: call that never returned: %s; first hang: %s; second hang: %s; %d pictures delivered; %s"
+                          % (len(completed), stage, pend, snap(d0), snap(again), len(again.frames), desc(sp, fl, t, p16, sched)),
                           {"spec": sp, "flavour": fl, "threads": t, "pipe16": p16, "sched": sched})
         else:
-            chk.inconclusive_case("watchdog fired once, re-run completed (%s)" % desc(sp, fl, t, p16, sched))
+            chk.inconclusive_case("watchdog fired once (%s, pending call %s), %d solitary re-runs completed (%s)"
+                                  % (snap(d0), dec.pending_call(d0), len(completed), desc(sp, fl, t, p16, sched)))
+        if completed:
             base = bases[sp["name"]][p16] or bases[sp["name"]][0]
-            judge(ctx, sp, base, d, fl, t, p16, sched)
+            judge(ctx, sp, base, completed[0], fl, t, p16, sched)
 
     # 4. the raw finding: annotations off
     if not replay:
-        sp = sorted([s for s in usable if s["tiles"] > 1] or usable, key=lambda s: os.path.getsize(s["ivf"]))[0]
+        sp = sorted(picked[:ts_n] or usable, key=lambda s: os.path.getsize(s["ivf"]))[0]
         p = os.path.join(chk.dir, "nohb")
         d = dec.run_dec_case("tsan", mt_case(sp, 4, 0, 0), p, no_hb=True, read_frames=False,
                              timeout=6 * dec.case_timeout({"in": sp["ivf"]}, "tsan"))
